@@ -72,7 +72,12 @@ func scanOracle(r *explore.ConcRun, base *explore.Base, e explore.Event) (string
 	for k := range w {
 		all[k] = true
 	}
+	var keys []string
 	for k := range all {
+		keys = append(keys, k)
+	}
+	sort.Strings(keys)
+	for _, k := range keys {
 		val, present := base.Model[k]
 		stable := true
 		var before []explore.Event
